@@ -127,6 +127,12 @@ def Th.tick (th : Th) (now : Rat) : Except Err TickOut :=
                cursor := (th.cursor + 1) % th.trainers.length },
              some tr.name, d.trainable, if d.trainable then runCalls else [], d.reads⟩
 
+/-- `TrainersDict.attach_data_users(fresh)`: the same trainer objects are wired to a new set of data users
+(a second session in one process): every decision from now on looks at the new buffers; cursor and
+markers are the trainers' own and stay. -/
+def Th.reattach (th : Th) : Th :=
+  { th with users := th.users.map (fun p => (p.1, { cap := p.2.cap, qsize := p.2.qsize })) }
+
 /-- A sample arrives for data user `k` (inference side), stamped `t`. Unknown `k`: `KeyError`. -/
 def Th.collect (th : Th) (k : String) (d : Nat) (t : Rat) : Except Err Th :=
   match th.users.get k with
